@@ -1627,7 +1627,8 @@ def kinds_family(tier, seed):
         # a keyword-only field declared in the middle: fields stay in declaration order, the parameters do not
         "kw_mid": [("a", "int", None), ("b", "str", ("kw", None)), ("c", "float", None)],
         # scalar and callable defaults that the sqlalchemy twin can express as column defaults
-        "sa_defaults": [("code", "str", None), ("title", "str", ("v", "'x'")), ("n", "int", ("f", "make_n")), ("k", "int", ("v", "10"))],
+        "sa_defaults": [("code", "str", None), ("title", "str", ("v", "'x'")), ("n", "int", ("f", "make_n")), ("k", "int", ("v", "10")),
+                        ("z", "int", ("f", "int")), ("w", "str", ("f", "str"))],      # builtins without an inspectable signature
         # private-looking field whose default needs the instance (attrs: parameter `disc`, attribute and field id `_disc`)
         "takes_self": [("price", "int", None), ("_disc", "int", ("ts", "0")), ("note", "str", ("ts", "'n'"))],
         # an annotation that cannot be resolved: every kind refuses the model, none guesses
